@@ -68,7 +68,7 @@ cfg["C05"] = {
                        "c=3,numa=0,r=2290", "c=2,numa=0,r=1500,sb=10,mp=20", "c=2,numa=0,r=1010,sb=1000,mp=1000"), "samples": 2},
         {"dir": SCHED, "float": "ieee", "solver": "z3-oneshot", "timeout_s": 120, "quick": P("VerifPiecesIEEE", "c=1,sb=100,lo=27,hi=32"),
          "thorough": P("VerifPiecesIEEE", "c=1,sb=100,lo=1,hi=100", "c=2,sb=100,lo=101,hi=130", "c=1,sb=10,lo=1,hi=10", "c=1,sb=1000,lo=275,hi=300"), "samples": 1},
-        {"dir": CPUMEM, "quick": P("VerifAlloc", "c=2,numa=0,b=1,r=1130"), "thorough": P("VerifAlloc", "c=2,numa=0,b=1,r=1130", "c=2,numa=0,b=1,r=570,k=2"), "samples": 2},
+        {"dir": CPUMEM, "quick": P("VerifAlloc", "c=2,numa=0,b=1,r=1130", "c=2,numa=0,b=1,r=1000,lim=2000,k=1"), "thorough": P("VerifAlloc", "c=2,numa=0,b=1,r=1130", "c=2,numa=0,b=1,r=1000,lim=2000,k=1", "c=2,numa=0,b=1,r=570,k=2", "c=2,numa=0,b=1,r=500,lim=1200,k=1"), "samples": 2},
     ],
     "bounds": "requests: the listed concrete requests (incl. the truncation-prone 0.29, 0.57, 1.13) on arbitrary node states; plus, with full IEEE-754 semantics (SMT FloatingPoint, RNE), every centi-core request k/100 with k in the stated range on a node of free whole-share cores",
     "outside": sched_out, "assumptions": node_assume + [plugin_stubs, "IEEE harness: request = float64(k)/100 (identical to the correctly rounded parse of the decimal); math.Round = roundToIntegral RNA"],
@@ -169,7 +169,7 @@ ledger_assume = [cal_stubs,
     "pre-state satisfies usage(node) = sum of recorded workloads (the invariant itself), amounts in [0,2^30]"]
 cfg["C10"] = {
     "title": "Node usage always equals the sum of the workloads recorded on the node", "design_ref": "DESIGN.md §4 C10",
-    "runs": [{"dir": CAL, "inline_go": True, "quick": ops_q + create_op, "thorough": ops_q + create_op + P("VerifCreateOp", "fault=30,count=3"), "samples": 4}],
+    "runs": [{"dir": CAL, "inline_go": True, "quick": ops_q + create_op, "thorough": ops_q + create_op + P("VerifCreateOp", "fault=30,count=3", "two=1,count=3,slots=3"), "samples": 4}],
     "bounds": "one inductive step per operation (ReallocResource, RemoveWorkload, DissociateWorkload, CreateWorkload, ReplaceWorkload through the exported API) from an arbitrary ledger state satisfying the invariant (2 workloads on one node; create: 2 empty nodes with 0-2 deployable slots each, AUTO, count<=2/3), with no fault or one fault at any call position (<=24)",
     "outside": "whole-API histories, interleavings of concurrent operations, the real plugin arithmetic (C04/C08), capacity bounds",
     "assumptions": ledger_assume,
@@ -230,7 +230,7 @@ cfg["C06"]["runs"].append({"dir": SCHED, "permute_ranges": [GCP], "quick": [], "
 
 cfg["C12"] = {
     "title": "Deployment results are complete and truthful", "design_ref": "DESIGN.md §4 C12 / §7.2",
-    "runs": [{"dir": CAL, "inline_go": True, "quick": P("VerifCreateOp", "fault=24,count=2"), "thorough": P("VerifCreateOp", "fault=24,count=2", "fault=30,count=3"), "samples": 4}],
+    "runs": [{"dir": CAL, "inline_go": True, "quick": P("VerifCreateOp", "fault=24,count=2", "fault=30,count=3"), "thorough": P("VerifCreateOp", "fault=24,count=2", "fault=30,count=3", "two=1,count=3,slots=3"), "samples": 4}],
     "bounds": "Calcium.CreateWorkload through the exported API: AUTO over two nodes with 0-2 deployable slots each (symbolic), count 1-2 (thorough 3), symbolic resource amount, no fault or one fault at any of the store / plugin / engine / WAL calls (<=24 positions). ONE sequential schedule: pool tasks and goroutines run to completion at their spawn point, channels are FIFO queues",
     "outside": "every other interleaving of the per-node and per-instance goroutines (the property is quantified over requests and faults, not schedules; other schedules are not explored); other strategies and node filters at this level (the strategies themselves: C01-C03); file injection, hooks, image pull",
     "assumptions": ledger_assume,
